@@ -56,7 +56,7 @@ var c08Outcomes = []string{"ok", "ok", "ok", "et", "ep", "pe", "ps", "pS", "pi",
 	"pk", "pK", "pm", "sl2000,ps", "sl5000,pn", "sL300,pe", "sl3000,cx,pk", "y2,pm"}
 
 func genSrvReq(g *simrt.Tape) *ReqSc {
-	rs := &ReqSc{Version: g.Draw(5), Option: g.Draw(3)}
+	rs := &ReqSc{Version: g.Draw(5), Option: g.Draw(3), Hdr: genHdr(g)}
 	if g.Draw(12) == 0 {
 		rs.Version = 5
 	}
@@ -636,6 +636,13 @@ func c08FaultFloor(tier string) []*C08Sc {
 		}
 		for pos := 0; pos < 120; pos += 3 {
 			out = append(out, &C08Sc{HTTP: []HTTPReqSc{{Req: ok2, Enc: enc, Mangle: "corrupt", Pos: pos, Val: 0x41 + pos%7}}, Clients: []RawClientSc{{Canary: true, Acts: c08BaseWorkload().Clients[1].Acts}}})
+		}
+	}
+	// a control character (DEL, BEL) at every position of a body rich in text strings, in the three encodings
+	rich := &ReqSc{Version: 4, Hdr: 2 | 16 | 64, Items: []ItemSc{{Tok: "ok", Op: "unrouted"}, {Tok: "ok"}}}
+	for enc := 0; enc < 3; enc++ {
+		for pos := 0; pos < 1100; pos++ {
+			out = append(out, &C08Sc{HTTP: []HTTPReqSc{{Req: rich, Enc: enc, Mangle: "corrupt", Pos: pos, Val: []int{127, 7}[pos%2]}}})
 		}
 	}
 	ok1 := &ReqSc{Version: 4, Items: []ItemSc{{Tok: "ok"}}}
